@@ -462,8 +462,10 @@ pub fn run(args: &Args, rep: &mut Report) {
             b.push(valid[(w as u64 % valid.len() as u64) as usize]);
             codec.check_bytes(&b, rep, &props);
         }
-        for pos in 0..8 {
-            for &v in &valid {
+        // (the interpreter is ~10^4 times slower: first and last immediate position, every eighth opcode)
+        let miri = args.regime == "miri";
+        for pos in (0..8).filter(|p| !miri || *p == 0 || *p == 7) {
+            for &v in valid.iter().step_by(if miri { 8 } else { 1 }) {
                 let mut imm = [0x11u8; 8];
                 imm[pos] = v;
                 let mut bytes = vec![1];
